@@ -370,6 +370,39 @@ def explore_backbone(ctx: common.Ctx, kind: str, n_jobs: int, opts: dict, procs:
     return res
 
 
+def collapse_stream(ctx: common.Ctx, n_jobs: int, side: str, procs: int = 14):
+    """binding node-collapsing parameters on indel-rich clusters (cv_explore.collapse_worker);
+    side 'lost' (C01) / 'gained' (C02) / 'both'"""
+    jobs = [(ctx.rng('collapse', i).randrange(1 << 30), ctx.tier, {}) for i in range(n_jobs)]
+    with mp.get_context('fork').Pool(min(procs, max(1, n_jobs))) as pool:
+        res = pool.map(cv_explore.collapse_worker, jobs)
+    st = ctx.coverage.setdefault('collapse_stream_stats', {})
+    for r in res:
+        for k, v in r.get('stats', {}).items():
+            st[k] = st.get(k, 0) + v
+        if 'runs' not in r:
+            continue
+        base = set(r['base']['real'])
+        ctx.evaluated('collapse-parameters', str(r['seed']), bool(base), r['desc'])
+        if r['base']['status'] != 'ok':
+            continue
+        for v in r['runs']:
+            ctx.count('collapse-parameters', 'collapsed_runs')
+            got = set(v['real'])
+            lost, gained = base - got, got - base
+            if v['status'] != 'ok':
+                ctx.add_violation(f'callVariant crashed ({v["status"]}) with node-collapsing parameters '
+                                  f'{v["what"]} on an input the default parameters handle',
+                                  dict(r['desc'], kind='collapse', collapse=v['what']))
+            elif (lost and side in ('lost', 'both')) or (gained and side in ('gained', 'both')):
+                ctx.add_violation(
+                    f'node-collapsing parameters {v["what"]} changed the output: lost {sorted(lost)[:3]} '
+                    f'({len(lost)}), gained {sorted(gained)[:3]} ({len(gained)})',
+                    dict(r['desc'], kind='collapse', collapse=v['what'], lost=sorted(lost)[:20],
+                         gained=sorted(gained)[:20]))
+    shutil.rmtree(gen_ref.WORK, ignore_errors=True)
+
+
 def fusion_pairs(ctx: common.Ctx, n_jobs: int, procs: int = 14):
     """two fusions from one donor breakpoint (see cv_backbone.fusion_pair_worker): violations
     are added here; returns the number of evaluated cases"""
